@@ -433,7 +433,8 @@ ENDINGS = {
 def make_func(sched, script, tag, run_timeout_v=None, results=None):
     """script = dict(steps=[...], end=...).  steps: 'i' interruptible, 'n' native block, 'sK'/'sE'/'sB' swallow once with
     except KeyboardInterrupt / Exception / BaseException, ('call', inner_script) nested run_timeout."""
-    marker = object()
+    # 'retExc': the function finishes in time and RETURNS an exception instance (an error reported as a value)
+    marker = TimeoutError('returned as a value') if script['end'] == 'retExc' else object()
 
     def f():
         vt = sched.cur_vt()
@@ -477,7 +478,7 @@ def make_func(sched, script, tag, run_timeout_v=None, results=None):
                         sched.log(('func-raise', tag, 'inner:' + type(e).__name__))
                     raise
             end = script['end']
-            if end == 'ret':
+            if end in ('ret', 'retExc'):
                 sched.log(('func-return', tag))
                 return marker
             exc = ENDINGS[end]('own')
